@@ -54,7 +54,7 @@ func init() {
 		ID:    "C13",
 		Level: "exploration",
 		Rule: "case = one successful accessor-mode retrieval (systematic step-kind sequences x function suffixes x battery, random ASTs on path-directed documents whose number and string " +
-			"leaves are made pairwise distinct); for EVERY result index i: on a fresh copy of the document Set(sentinel) through accessor i, then the whole document is compared with a copy " +
+			"leaves are made pairwise distinct, and the accepted strings of the hostile generators with their AST recovered from the grammar's parse tree); for EVERY result index i: on a fresh copy of the document Set(sentinel) through accessor i, then the whole document is compared with a copy " +
 			"the harness mutated at the location SPEC predicts for result i; Get() after Set returns the sentinel; Get() after the harness writes a second sentinel directly into that " +
 			"map entry / array element returns it; Set==nil exactly when SPEC's location is none (root, function output); non-trivial = a Set was exercised on a document with >= 3 leaves; " +
 			"distinct = distinct (path, document, index)",
@@ -67,14 +67,31 @@ func init() {
 				paths = gen.SysPaths(2, 1, fnF, fnG)
 			}
 			nSys := len(paths) * len(gen.Battery)
+			nRand := size(tier, 80000, 1000000)
+			nStr := size(tier, 40000, 500000)
+			var src *strSource
 			return &harness.Plan{
-				N:     nSys + size(tier, 80000, 1000000),
-				Setup: func(c *harness.Ctx) { hooksOn() },
+				N: nSys + nRand + nStr,
+				Setup: func(c *harness.Ctx) {
+					hooksOn()
+					src = newStrSource()
+				},
 				Run: func(c *harness.Ctx, k int) {
 					var p *spec.Path
 					var doc string
 					if k < nSys {
 						p, doc = paths[k/len(gen.Battery)], gen.Battery[k%len(gen.Battery)]
+					} else if k >= nSys+nRand {
+						if src.err != nil {
+							return
+						}
+						r := c.Rand()
+						d, ok := stringCase(c, r, gen.New(r), src)
+						if !ok {
+							return
+						}
+						runC13Text(c, d.P, d.Text, d.Doc, k%3 == 0)
+						return
 					} else {
 						r := c.Rand()
 						g := gen.New(r)
@@ -115,7 +132,11 @@ func countLeaves(v interface{}) int {
 }
 
 func runC13(c *harness.Ctx, p *spec.Path, doc string, useNum bool) {
-	text := p.Text()
+	runC13Text(c, p, p.Text(), doc, useNum)
+}
+
+// runC13Text: text is the spelling handed to the library, p its AST (for SPEC's locations).
+func runC13Text(c *harness.Ctx, p *spec.Path, text, doc string, useNum bool) {
 	cfg := std.Config(true)
 	first := lib.Retrieve(text, lib.Decode(doc, useNum), cfg)
 	key := text + "\x00" + doc
